@@ -225,7 +225,10 @@ func c15Sequence(c *mon.Ctx, seq []int, r *mon.Rand, enumerated bool) {
 						errInMsg = true
 					}
 					step(i, opNames[op]+"/head", err, sr, stale.write(head), !spec.open)
-					tail := p[len(head):]
+					tail := append([]byte(nil), p[len(head):]...)
+					for k := range head {
+						head[k] ^= 0x5A // caller reuses its slice
+					}
 					if variant == 1 {
 						_, err = tr.WriteString(string(tail))
 					} else {
@@ -247,6 +250,11 @@ func c15Sequence(c *mon.Ctx, seq []int, r *mon.Rand, enumerated bool) {
 					errInMsg = true
 				}
 				step(i, opNames[op], err, sr, stale.write(p), !spec.open)
+				// the slice belongs to the caller again once Write has returned: a
+				// chunked writer refills its scratch buffer
+				for k := range p {
+					p[k] ^= 0x5A
+				}
 			case opByte:
 				counter++
 				err := tr.WriteByte(counter)
